@@ -59,6 +59,12 @@ macro_rules! optionally_unsafe_impl {
 /// Optimization behaviors are disabled on tests.
 ///
 /// Use this macro along with [`optionally_unsafe!{}`].
+#[cfg(not(all(
+    fast_tlsh_verif,
+    fast_tlsh_verif_invariants,
+    not(feature = "unsafe"),
+    not(test)
+)))]
 #[doc(alias = "invariant")]
 macro_rules! invariant_impl {
     ($expr: expr) => {
@@ -73,6 +79,20 @@ macro_rules! invariant_impl {
                 debug_assert!($expr);
             }
         }
+    };
+}
+
+/// (verification hook) Observed variant of `invariant!()`: evaluates the
+/// expression, reports the result to [`crate::verif`] and never panics.
+#[cfg(all(
+    fast_tlsh_verif,
+    fast_tlsh_verif_invariants,
+    not(feature = "unsafe"),
+    not(test)
+))]
+macro_rules! invariant_impl {
+    ($expr: expr) => {
+        crate::verif::invariant_site(file!(), line!(), stringify!($expr), $expr);
     };
 }
 
